@@ -62,6 +62,14 @@ def warm(o, calls):
     Every property is stated for 'the object', not for a fresh object, so its check may be preceded by any other API calls."""
     for c in calls or ():
         name, args = c[0], list(c[1]) if len(c) > 1 and c[1] is not None else []
+        if name.startswith("plot:"):
+            try:
+                import matplotlib.pyplot as plt
+                getattr(o, name[5:])(getFig=True, **dict(c[1] or {}))
+                plt.close("all")
+            except Exception:   # noqa
+                pass
+            continue
         if name == "phospho_cycle":
             # set up to k real S/T/Y sites, ask for the phosphorylated kappa, optionally clear again
             try:
@@ -94,3 +102,13 @@ def warm(o, calls):
 def spw(seq, case):
     """SequenceParameters(seq) after the case's warm-up history (if any)."""
     return warm(sp(seq), case.get("warm") if isinstance(case, dict) else None)
+
+
+def arrange_blocky(P, M, Z, rnd):
+    """A segregated arrangement: one positive block, one negative block (either order), the neutrals split at random between
+    start, middle and end (the shape of the documented delta-max candidates, without their restrictions)."""
+    s = rnd.randint(0, Z)
+    m = rnd.randint(0, Z - s)
+    e = Z - s - m
+    a, b = ("+" * P, "-" * M) if rnd.random() < 0.5 else ("-" * M, "+" * P)
+    return "0" * s + a + "0" * m + b + "0" * e
